@@ -80,6 +80,16 @@ impl Kind {
     pub fn uses_iter(self) -> bool {
         matches!(self, Kind::Stream | Kind::StreamBoxed | Kind::StreamExact | Kind::MappedStream | Kind::CtxStream | Kind::MapSpanStream | Kind::CharStream | Kind::IterInput)
     }
+    /// (SliceInput, BorrowInput, ExactSizeInput-with-index-rebasing) — must agree with the `caps!` table in build.rs
+    pub fn caps(self) -> (bool, bool, bool) {
+        match self {
+            Kind::Slice | Kind::Array | Kind::CtxSlice | Kind::MapSpanSlice | Kind::CharSlice => (true, true, true),
+            Kind::Str | Kind::CtxStr | Kind::MapSpanStr | Kind::Bytes => (true, false, true),
+            Kind::MappedSlice => (true, true, false),
+            Kind::StreamExact => (false, false, true),
+            _ => (false, false, false),
+        }
+    }
     pub fn is_char(self) -> bool {
         matches!(self, Kind::CharSlice | Kind::Str | Kind::CharStream | Kind::CtxStr | Kind::MapSpanStr)
     }
@@ -587,6 +597,7 @@ impl SrcSim {
         let (mspans, eoi) = gen_mspans(rng, syms.len());
         let base_env = Env { policy: ReaderPolicy::full(), reader_seed: 0, trace: None, hint: Hint::Exact, mspans, eoi };
         let needs_value = gram::needs_value_input(g);
+        let need = gram::needs_caps(g);
         for mode in [PMode::Parse, PMode::Check] {
             // reference: the single copy
             let rrun = run_kind(g, syms, ref_kind, mode, &base_env, (REF_TICK_CAP, u64::MAX, u64::MAX));
@@ -627,6 +638,10 @@ impl SrcSim {
                 if kind == Kind::IterInput && needs_value {
                     continue;
                 }
+                let have = kind.caps();
+                if (need.0 && !have.0) || (need.1 && !have.1) || (need.2 && !have.2) {
+                    continue;
+                }
                 // environments: legal policies carry the equality oracle; hard errors are characterised only
                 let n_legal = if kind.uses_reader() { 2 } else { 1 };
                 for rep in 0..n_legal {
@@ -636,7 +651,23 @@ impl SrcSim {
                     env.policy = if rep == 0 && long { ReaderPolicy::full() } else { ReaderPolicy::legal(rng, syms.len(), &hot) };
                     let run = run_kind(g, syms, kind, mode, &env, src_budget(w, syms.len()));
                     digest = fold(digest, run.outcome.digest());
+                    if let Outcome::Panicked { msg } = &run.outcome {
+                        if msg.starts_with("harness:") {
+                            // a bug in the harness itself must never be reported as a violation
+                            acc.inc("HARNESS.builder_panic");
+                            continue;
+                        }
+                    }
                     acc.inc("evaluations.replica_runs");
+                    if need.0 {
+                        acc.inc("replica_runs.with_to_slice");
+                    }
+                    if need.1 {
+                        acc.inc("replica_runs.with_any_ref/select_ref");
+                    }
+                    if need.2 {
+                        acc.inc("replica_runs.with_span_from");
+                    }
                     acc.inc(&format!("replica_runs.{:?}", kind));
                     record_source_stats(acc, kind, &run.stats, true);
                     // O3 monitors
@@ -845,7 +876,13 @@ impl Engine for SrcSim {
         }
         let is_char = rng.chance(1, 4);
         let input_only = !is_char && rng.chance(1, 5);
-        let cfg = GenCfg::swarm(&mut rng, !input_only);
+        let mut cfg = GenCfg::swarm(&mut rng, !input_only);
+        if !input_only {
+            // capability-specific nodes restrict the case to the kinds that have the capability
+            cfg.allow_slice = rng.chance(1, 6);
+            cfg.allow_borrow = !is_char && rng.chance(1, 8);
+            cfg.allow_exact = rng.chance(1, 8);
+        }
         let g = gram::generate(&mut rng, &cfg);
         let mut d = 0;
         let n_inputs = rng.range(1, 3);
